@@ -211,6 +211,14 @@ def _check_vector(acc, n, M, g2, g4):
             acc.fail("pc/biased/table-rows-with-missing-cells", case, target_pc, r)
         else:
             acc.ok()
+        # categories that are float-valued ids differing only beyond the sixth significant digit
+        ids = (1234567.0, 1234568.0, 1234569.0, 0.1234567, 0.1234568)
+        df = pd.DataFrame({"clone": [ids[i] for i in sample], "chain": ["B"] * len(sample)})
+        r = acc.call(pyrepseq.pc, df)
+        if raised(r) or float(r) != float(target_pc):
+            acc.fail("pc/biased/table-rows-with-float-ids", case, target_pc, r)
+        else:
+            acc.ok()
     if N < 4:
         return
     # (iii) varpc_n is the unique unbiased estimator of Var(pc) = E[pc^2] - (sum p^2)^2
@@ -260,6 +268,16 @@ def _check_pair(acc, n1, n2, M1, M2, lin1, lin2):
         acc.fail("pc/two-sample-biased", ("vec2", n1, n2), target, r)
     else:
         acc.ok(("pc2", float(target)), nontrivial=target > 0)
+    # the same draw with the two samples in different containers / numeric types
+    import pandas as pd
+    sl = ("a", "b", "c", "d", "e")
+    for a_, b_, tag in (([sl[i] for i in a], pd.Series([sl[i] for i in b], dtype=object), "list-vs-object-series"),
+                        (np.array(a), np.array(b, dtype=float), "ints-vs-floats")):
+        r = acc.call(pyrepseq.pc, a_, b_)
+        if raised(r) or float(r) != float(target):
+            acc.fail("pc/two-sample-biased/mixed-spelling", ("vec2", n1, n2), target, r, note=tag)
+        else:
+            acc.ok()
     # the same draw with string labels of different widths, one a prefix of another
     lab = ("x1", "x10", "x2", "x", "x100")
     r = acc.call(pyrepseq.pc, np.array([lab[i] for i in a]), np.array([lab[i] for i in b]))
